@@ -392,6 +392,13 @@ class IntegrationSolver:
         logger.info(display.header)
 
         while True:
+            if (params.iteration_limit is not None) and (
+                iteration >= params.iteration_limit
+            ):
+                status = SolverStatus.IterationLimit
+                logger.debug("Iteration limit reached")
+                break
+
             self._check_filter(curr_z, curr_filter, self.rho)
             self._check_bounds(curr_z)
 
@@ -472,13 +479,6 @@ class IntegrationSolver:
                 )
                 self.rho *= 10
                 curr_filter = self.create_filter(curr_z, self.rho)
-
-            if (params.iteration_limit is not None) and (
-                iteration >= params.iteration_limit
-            ):
-                status = SolverStatus.IterationLimit
-                logger.debug("Iteration limit reached")
-                break
 
         (curr_x, curr_y) = self.flow.split_states(curr_z)
         iterate = Iterate(problem, params, curr_x, curr_y)
